@@ -16,7 +16,8 @@ POOL = ["va", "vb", "vc"]
 PROVIDE_KWARGS = ["pva", "pvb", "pvc"]
 ELEM_TAGS = ["div", "span", "article", "section"]
 # class-name pool; entries beyond the first few stress C04 (names outside [A-Za-z0-9_], prefixes of each other)
-CLASS_NAMES = ["Comp", "Comp_x", "CompComp", "Knopf", "Tlačítko", "Кнопка", "按钮", "Comp1"]
+# (the last one: a valid identifier with combining marks - Thai vowel / tone signs are category Mn, which `\w` does not match)
+CLASS_NAMES = ["Comp", "Comp_x", "CompComp", "Knopf", "Tlačítko", "Кнопка", "按钮", "Comp1", "ปุ่ม"]
 
 FEATURES = [
     "loops", "ifs", "withs", "nested_slots", "slot_in_fill", "fills_cond", "fills_loop", "dyn_names",
